@@ -168,6 +168,24 @@ def write_dimacs(path, n, edges_w_tokens, rng, trailing_newline=True, omit_unit=
     return txt
 
 
+def gen_large_valid(rng):
+    """a valid graph with 46341..70000 vertices: a small random graph (which carries all the cycles, so the optimum is the small
+    graph's) plus a pendant forest over the remaining vertices; returns n, edges, optimum, cycle-space dimension"""
+    n0, edges = gen_valid(rng, max_n=14)
+    opt, dim = mcb_optimum(n0, edges)
+    n = rng.choice([46341, 46342, rng.randint(46343, 50000), rng.randint(50000, 65535), 65536, rng.randint(65537, 70000), rng.randint(46342, 65536)])
+    E = list(edges)
+    isolated = rng.random() < 0.3
+    for v in range(n0, n):
+        if isolated and rng.random() < 0.001:
+            continue                                   # a few isolated vertices / separate components
+        E.append((v - 1 if rng.random() < 0.7 else rng.randrange(max(0, v - 50), v), v, rng.randint(1, 9)))
+    rng.shuffle(E)
+    assert len(set((min(a, b), max(a, b)) for a, b, w in E)) == len(E) and all(a != b and w > 0 for a, b, w in E)
+    assert len(E) - n + components(n, E) == dim
+    return n, E, opt, dim
+
+
 def big_graph(rng, n=150, m=450, wmax=9):
     E = set()
     while len(E) < m:
